@@ -1,7 +1,7 @@
 PROPERTIES = ['C03', 'C02']
 BOUNDS = {
     'quick': 'inplace_function<int(int),16> (and <int(int),8> as the source of the converting constructors): one operation from every state (empty, 8-byte target, 16-byte target; '
-             'state symbolic, case-split), every (lhs, rhs) state pair for assignment and swap; captured payloads, call argument and raw object bytes symbolic; copy+move and copy-only captures',
+             'state symbolic, case-split), every (lhs, rhs) state pair for assignment and swap; captured payloads, call argument and raw object bytes symbolic; copy+move, copy-only and defaulted-assignment captures',
     'thorough': 'same as quick (the state space of a single function object is covered completely by the single steps)',
 }
 ASSUMPTIONS = [
@@ -19,10 +19,11 @@ for f_, n_ in (('d_sym_block', 40), ('lg_register', 18), ('lg_expect', 18), ('lg
 def queries(tier, prop='C03'):
     ub = prop == 'C02'
     out = []
-    for fl in ((0, 2) if not ub else (0,)):
+    for fl in ((0, 2, 3) if not ub else (0,)):
         for e in ALL:
             q = dict(entry='q_f_' + e, cfg={'FLAV': fl}, unwind=24, unwindset=UW, budget=120 if tier == 'quick' else 600, ub=ub, nofunc=ub)
             out.append(q)
     for q_ in out:
         q_['lazy_trace'] = True   # verdict first, counterexample trace only when an obligation fails (engine/runner.py)
+        if q_['cfg'].get('FLAV') == 3: q_['cbmc_flags'] = ['--max-field-sensitivity-array-size', '256']   # defaulted assignment = memcpy through pointers: keep the ledger global field-sensitive
     return out
